@@ -2,7 +2,11 @@
 use pyo3_stub_gen::derive::gen_stub_pyclass;
 
 use super::{Qubit, QuotedString};
-use crate::{expression::Expression, pickleable_new, quil::Quil};
+use crate::{
+    expression::{Expression, PrefixOperator},
+    pickleable_new,
+    quil::Quil,
+};
 
 #[derive(Clone, Debug, PartialEq, Eq, Hash)]
 #[cfg_attr(feature = "stubs", gen_stub_pyclass)]
@@ -45,7 +49,23 @@ impl Quil for Delay {
             write!(writer, " {}", QuotedString(frame_name))?;
         }
         write!(writer, " ",)?;
-        self.duration.write(writer, fall_back_to_debug)
+        // Without a frame name in between, the duration directly follows the qubits. Written bare,
+        // `sin(%t)`, `%t - 1` or `1-2.0i` would be read back as the qubit `sin`, `%t` or `1`
+        // followed by the duration `(%t)`, `-1` or `-2.0i`, so such durations are parenthesized.
+        let is_ambiguous = self.frame_names.is_empty()
+            && match &self.duration {
+                Expression::FunctionCall(_) | Expression::Infix(_) => true,
+                Expression::Number(value) => value.re != 0f64 && value.im != 0f64,
+                Expression::Prefix(prefix) => prefix.operator == PrefixOperator::Plus,
+                _ => false,
+            };
+        if is_ambiguous {
+            write!(writer, "(")?;
+            self.duration.write(writer, fall_back_to_debug)?;
+            write!(writer, ")").map_err(Into::into)
+        } else {
+            self.duration.write(writer, fall_back_to_debug)
+        }
     }
 }
 
